@@ -80,12 +80,9 @@ func NewPebbleScanner(dbPath string, opts PebbleScannerOptions) (*PebbleScanner,
 	// 1. Path Sanitization
 	// We prevent the engine from initializing in sensitive system roots.
 	// This captures cases where a misconfigured env var points the DB to /etc or /root.
-	absPath, err := filepath.EvalSymlinks(dbPath)
+	absPath, err := resolveDBLocation(dbPath)
 	if err != nil {
-		if !os.IsNotExist(err) {
-			return nil, fmt.Errorf("failed to resolve absolute path for db: %w", err)
-		}
-		absPath, _ = filepath.Abs(dbPath)
+		return nil, fmt.Errorf("failed to resolve absolute path for db: %w", err)
 	}
 	// Restricts database operations to non critical directories.
 	// Initializing a database in system roots could allow an attacker
@@ -93,7 +90,9 @@ func NewPebbleScanner(dbPath string, opts PebbleScannerOptions) (*PebbleScanner,
 	if runtime.GOOS == "linux" {
 		sensitivePrefixes := []string{"/etc", "/root", "/usr", "/bin", "/sbin", "/boot"}
 		for _, sp := range sensitivePrefixes {
-			if strings.HasPrefix(absPath, sp) {
+			// Match the directory itself or anything beneath it, not siblings that
+			// merely share a name prefix (/etcetera, /usrlocal).
+			if absPath == sp || strings.HasPrefix(absPath, sp+"/") {
 				return nil, fmt.Errorf("security violation: refusing to initialize database in system directory %q", absPath)
 			}
 		}
@@ -175,6 +174,33 @@ func NewPebbleScanner(dbPath string, opts PebbleScannerOptions) (*PebbleScanner,
 	}
 
 	return scanner, nil
+}
+
+// resolveDBLocation returns the location dbPath would actually occupy: symlinks are
+// resolved on the deepest ancestor that exists, and the components that do not exist
+// yet are appended unchanged. A database that is about to be created behind a
+// symlinked parent is therefore judged by where it will really live.
+func resolveDBLocation(dbPath string) (string, error) {
+	abs, err := filepath.Abs(dbPath)
+	if err != nil {
+		return "", err
+	}
+	cur, suffix := abs, ""
+	for {
+		resolved, err := filepath.EvalSymlinks(cur)
+		if err == nil {
+			return filepath.Join(resolved, suffix), nil
+		}
+		if !os.IsNotExist(err) {
+			return "", err
+		}
+		parent := filepath.Dir(cur)
+		if parent == cur {
+			return abs, nil
+		}
+		suffix = filepath.Join(filepath.Base(cur), suffix)
+		cur = parent
+	}
 }
 
 func (s *PebbleScanner) Close() error {
